@@ -722,8 +722,14 @@ def gen_room(rng, n):
 # ------------------------------------------------------------------ driver interface
 def gen_cases(rng, tier):
     quick = tier == "quick"
-    return gen_pfba(rng, 260 if quick else 3000) + gen_moma(rng, 200 if quick else 2500) + \
-        gen_room(rng, 66 if quick else 600)
+    only = os.environ.get("C09_ONLY")       # development aid: restrict to one analysis
+    out = []
+    for kind, gen, n in (("pfba", gen_pfba, 240 if quick else 3000), ("moma", gen_moma, 160 if quick else 2500),
+                         ("room", gen_room, 48 if quick else 600)):
+        cs = gen(rng, n)                     # always drawn, so that the streams do not depend on C09_ONLY
+        if only in (None, "", kind):
+            out += cs
+    return out
 
 
 def case_term(case):
